@@ -144,11 +144,11 @@ theorem C19_scan (o : ListOpts) (path : Bytes) (entries : List Entry)
           fun e => ⟨dirPrefix path, e.name⟩) [] [])) :
     ∃ seqs files, findSequencesOnDisk (some entries) path o = .ok (seqs ++ files) ∧
                   Cpp.scan (some entries) path o = .ok (files ++ seqs) := by
-  obtain ⟨gs, cs, files, hgo, hcpp, hrel, hinv⟩ :=
+  obtain ⟨gs, cs, files, hgo, hcpp, hrel, hinv, hcinv⟩ :=
     CppScan.scan_sim o (dirPrefix path) (Or.inr hroot) entries [] [] [] hnd hsingle .nil
-      (fun _ h => by cases h)
+      (fun _ h => by cases h) (fun _ h => by cases h)
   have hd : ∀ g ∈ gs, CppScan.BucketDom g := by rw [hgo] at hdom; exact hdom
-  have hb := CppScan.buckets_out o.style (dirPrefix path) (Or.inr hroot) gs cs hrel hinv hd
+  have hb := CppScan.buckets_out o.style (dirPrefix path) (Or.inr hroot) gs cs hrel hinv hcinv hd
   have hany : (entries.any fun e => e.kind = .dangling) = false := by
     rw [List.any_eq_false]
     intro e he
@@ -165,6 +165,81 @@ theorem C19_scan (o : ListOpts) (path : Bytes) (entries : List Entry)
     · rfl
   · unfold Cpp.scan
     simp only [hpath, hcpp, hb]
+
+/-- Pattern lookup. `Cpp.find` is the port's `findSequenceOnDisk`: the pattern is parsed in the
+    caller's style, its directory is scanned with the pattern as a template — with the default
+    options and the DEFAULT pad style —, the middle of a candidate name is tested by hand (an
+    optional '-', digits, no ERANGE), the first result with the pattern's basename and extension
+    is switched to the caller's style. The Go lookup scans in the caller's style and tests the
+    middle with its frame pattern and `Atoi`. For a pattern the constructor accepts, a readable
+    directory without dangling links and candidates of one digit width (two or more): the same
+    answer. -/
+theorem C19_find (lookup : Bytes → DirSpec) (pat : Bytes) (st : PadStyle) (fs : Seq) (entries : List Entry)
+    (hp : Seq.parse st pat = .ok fs) (hl : lookup fs.dir = some entries)
+    (hdir : fs.dir.isEmpty = true ∨ isSuffixOf ['/'] fs.dir = true)
+    (hnd : ∀ e ∈ entries, e.kind ≠ .dangling)
+    (hdom : CppScan.BucketsDom (scanItems ⟨false, false, st⟩ (some fs)
+        ((entries.filter fun e => e.kind = .file ∨ e.kind = .linkFile).map
+          fun e => ⟨dirPrefix fs.dir, e.name⟩) [] [])) :
+    Cpp.find lookup pat st = findSequenceOnDisk lookup pat st false false := by
+  obtain ⟨gs, cs, hgo, hcpp, hrel, hinv, hcinv⟩ :=
+    CppScan.scanT_sim ⟨false, false, st⟩ ⟨false, false, .hash4⟩ rfl fs (dirPrefix fs.dir) entries [] [] []
+      hnd .nil (fun _ h => by cases h) (fun _ h => by cases h)
+  have hd : ∀ g ∈ gs, CppScan.BucketDom g := by rw [hgo] at hdom; exact hdom
+  have hroot : Cpp.rootOf fs.dir = fs.dir := by
+    unfold Cpp.rootOf
+    rcases hdir with h | h <;> simp [h]
+  obtain ⟨h1, h2⟩ := CppScan.buckets_out2 st .hash4 fs.dir hdir gs cs hrel hinv hcinv hd
+  have hany : (entries.any fun e => e.kind = .dangling) = false := by
+    rw [List.any_eq_false]
+    intro e he
+    simpa using hnd e he
+  unfold Cpp.find findSequenceOnDisk scanDir findInItems
+  simp only [hp, hl, hany, Bool.false_eq_true, if_false, hcpp, hroot, h1]
+  rw [hgo]
+  simp only [bind, Except.bind, pure, Except.pure, h2, List.append_nil]
+  rw [CppScan.pick_eq st fs.base fs.ext gs hd]
+  congr 1
+  simp
+
+/-- … and when the constructor rejects the pattern both answer "no match", when the directory
+    cannot be read both fail -/
+theorem C19_find_rejects (lookup : Bytes → DirSpec) (pat : Bytes) (st : PadStyle) :
+    (∀ e, Seq.parse st pat = .error e →
+      Cpp.find lookup pat st = .ok none ∧ findSequenceOnDisk lookup pat st false false = .ok none) ∧
+    (∀ fs, Seq.parse st pat = .ok fs → lookup fs.dir = none →
+      Cpp.find lookup pat st = .error .io ∧ findSequenceOnDisk lookup pat st false false = .error .io) := by
+  refine ⟨?_, ?_⟩
+  · intro e he
+    unfold Cpp.find findSequenceOnDisk
+    simp [he]
+  · intro fs hfs hl
+    unfold Cpp.find findSequenceOnDisk scanDir
+    simp [hfs, hl]
+
+/-- the hypotheses of `C19_find`, as one decidable check -/
+def findDomOk (st : PadStyle) (pat : Bytes) (entries : List Entry) : Bool :=
+  match Seq.parse st pat with
+  | .error _ => false
+  | .ok fs =>
+    decide (fs.dir.isEmpty = true ∨ isSuffixOf ['/'] fs.dir = true) &&
+    decide (∀ e ∈ entries, e.kind ≠ .dangling) &&
+    decide (CppScan.BucketsDom (scanItems ⟨false, false, st⟩ (some fs)
+      ((entries.filter fun e => e.kind = .file ∨ e.kind = .linkFile).map
+        fun e => ⟨dirPrefix fs.dir, e.name⟩) [] []))
+
+/-- they are satisfiable, and there the port (scanning in the default style) and the Go library
+    (scanning in the caller's hash1 style) give the same, non-trivial answer -/
+example :
+    findDomOk .hash1 "/T/d/a.#.exr".toList
+      [⟨"a.0001.exr".toList, .file⟩, ⟨"sub".toList, .dir⟩, ⟨"a.exr".toList, .file⟩,
+       ⟨"a.0003.exr".toList, .linkFile⟩, ⟨"a.x.exr".toList, .file⟩, ⟨"a.0002.exr".toList, .file⟩] = true ∧
+    (match Cpp.find (fun _ => some
+      [⟨"a.0001.exr".toList, .file⟩, ⟨"sub".toList, .dir⟩, ⟨"a.exr".toList, .file⟩,
+       ⟨"a.0003.exr".toList, .linkFile⟩, ⟨"a.x.exr".toList, .file⟩, ⟨"a.0002.exr".toList, .file⟩])
+        "/T/d/a.#.exr".toList .hash1 with
+      | .ok (some s) => s.str | _ => []) = "/T/d/a.1-3####.exr".toList := by
+  decide +kernel
 
 /-- the hypotheses of `C19_scan` are satisfiable (a directory with a three-frame sequence, a
     frame-less file, a hidden file and a sub-directory, single files wanted), and on it the two
